@@ -10,7 +10,7 @@ CASES = [('t_predefined', [4]), ('t_predefined', [8]),
          ('t_layout', [4, 2, 0, 0, 0, 0, 0, 0, 2, 0, 0, 0, 0, 0, 1, 0, 0, 0, 1, 8, 0, 0, 1]),
          ('t_layout', [8, 1, 1, 16, 1, 8, 0, 3, 4, 2, 1, 0, 0, 0, 1])]
 ARITY = {'t_layout': 23, 't_nest': 20, 't_enum': 17, 't_impl': 12, 't_implname': 10, 't_marks': 21, 't_impl6': 13, 't_names': 9, 't_vftargs': 11, 't_privbase': 6, 't_vft': 24, 't_graph': 17, 't_scope': 11, 't_inherit': 17, 't_items': 9,
-         't_extern': 14, 't_odd': 9, 't_equiv': 18, 't_unrelated': 13, 't_modtype': 4, 't_order_modules': 4}   # t_order_*: natively order-dependent (C09 known finding)
+         't_extern': 14, 't_odd': 9, 't_equiv': 18, 't_unrelated': 14, 't_modtype': 4, 't_order_modules': 4}   # t_order_*: natively order-dependent (C09 known finding)
 PAIR = {'t_equiv', 't_unrelated', 't_modtype', 't_order_vft', 't_order_modules'}
 POOL = [0, 0, 0, 1, 1, 1, 2, 2, 3, 4, 4, 5, 6, 7, 8, 8, 12, 13, 16, 24, 32, 255, 256, 4096, -1, -2]
 
